@@ -161,6 +161,13 @@ Theorem C13_processes_mem_outputs_partial : forall sched o0 pre ws o,
 Proof. exact processes_mem_outputs_lost_thm. Qed.
 Print Assumptions C13_processes_mem_outputs_partial.
 
+(* the proposed repair (multiprocessing queue for the exceptions, threads for a factory target) makes the
+   process path equal to the thread path, so every theorem about threads above then holds of it *)
+Theorem C13_processes_repaired_as_threads : forall t sched o0 pre ws,
+  extract MProcsFixed t sched o0 pre ws = extract MThreads t sched o0 pre ws.
+Proof. exact processes_repaired_as_threads_thm. Qed.
+Print Assumptions C13_processes_repaired_as_threads.
+
 (* an error of the empty-member pass (run by the caller itself) is raised on every path *)
 Theorem C13_pre_error_all_modes : forall md t sched o0 pre ws e,
   first_fail pre = Some e -> snd (extract md t sched o0 pre ws) = Err e.
